@@ -14,9 +14,10 @@ The read-level printers inside the second half of `process_sample` (Model/Reuse.
     ReadAssignmentAggregator.__init__       the per-chromosome files: `tsvPart` (common header, column header, lines),
                                             `bedPart` (column header, lines); both printers with `PrintAllFunctor`
     DatasetProcessor.merge_assignments      `printedOf`: the main files (headers written by the main aggregator) +
-                                            `merge_files(..., copy_header=False)` = every part without its leading
-                                            `#`-lines, in the natural order of the file names (`mergeBody`,
-                                            `headerCount` as in Model/Schedule.lean `mergeFiles`)
+                                            `merge_files(..., copy_header=False, header_lines=printer.header_lines)` =
+                                            every part without the header lines its printer wrote, in the natural order
+                                            of the file names (`mergeBody`; the header test by content of the tree before
+                                            the repair fix_merge_header is kept as `mergeBodyOrig` / `printedOfOrig`)
     process_assigned_reads on a prefix      `processSavedP`;  `savingRunP` / `restartRunP` = Model/Reuse.lean's runs
                                             together with the two printed files
 
@@ -130,17 +131,23 @@ def tsvPart (X : PrintEnv) (l : Lines) : List String :=
 /-- `<prefix>_<chr>.corrected_reads.bed` -/
 def bedPart (l : Lines) : List String := [printer_bed_header] ++ l.bed.map C14.BedRecord.render
 
-/-- `line.startswith("#")` -/
+/-- `line.startswith("#")` (the header test BY CONTENT of the tree before the repair `fix_merge_header`) -/
 def isHeaderLine (l : String) : Bool := l.toList.head? == some '#'
 
-/-- `while f.readline().startswith("#"): header_count += 1` -/
+/-- `while f.readline().startswith("#"): header_count += 1` (before the repair) -/
 def headerCount : List String → Nat
   | [] => 0
   | l :: ls => if isHeaderLine l then headerCount ls + 1 else 0
 
-/-- `merge_files(..., copy_header=False)`: every existing part, in the order of the sorted file names, without its
-    leading lines that start with `#` -/
-def mergeBody (order : List Nat) (parts : List (List String)) : List String :=
+/-- `merge_files(..., copy_header=False, header_lines=k)`: every existing part, in the order of the sorted file names,
+    without its first `k` lines - the number of lines the printer of the parts wrote before the first record
+    (`printer.header_lines`, passed by `merge_assignments`) -/
+def mergeBody (k : Nat) (order : List Nat) (parts : List (List String)) : List String :=
+  (order.filterMap (fun c => parts[c]?)).flatMap (fun ls => ls.drop k)
+
+/-- `merge_files(..., copy_header=False)` before the repair: every part without its leading lines that start with `#`
+    - also the line of a read whose id starts with `#` -/
+def mergeBodyOrig (order : List Nat) (parts : List (List String)) : List String :=
   (order.filterMap (fun c => parts[c]?)).flatMap (fun ls => ls.drop (headerCount ls))
 
 structure Printed where
@@ -150,10 +157,21 @@ structure Printed where
   bed : List String
   deriving DecidableEq, Repr
 
+/-- `BasicTSVAssignmentPrinter.header_lines` = `(additional_header + self.header).count("\n")`: the command-line header
+    lines (one `\n` each) and the column header -/
+def tsvHeaderLines (X : PrintEnv) : Nat := X.commonHeader.length + 1
+/-- `BEDPrinter.header_lines` -/
+def bedHeaderLines : Nat := 1
+
 /-- `merge_assignments`: the main aggregator's printers have written their headers, `merge_files` appends the parts -/
 def printedOf (X : PrintEnv) (order : List Nat) (outs : List Lines) : Printed :=
-  { tsv := X.commonHeader ++ [printer_tsv_header] ++ mergeBody order (outs.map (tsvPart X)),
-    bed := [printer_bed_header] ++ mergeBody order (outs.map bedPart) }
+  { tsv := X.commonHeader ++ [printer_tsv_header] ++ mergeBody (tsvHeaderLines X) order (outs.map (tsvPart X)),
+    bed := [printer_bed_header] ++ mergeBody bedHeaderLines order (outs.map bedPart) }
+
+/-- `merge_assignments` of the tree before the repair `fix_merge_header` -/
+def printedOfOrig (X : PrintEnv) (order : List Nat) (outs : List Lines) : Printed :=
+  { tsv := X.commonHeader ++ [printer_tsv_header] ++ mergeBodyOrig order (outs.map (tsvPart X)),
+    bed := [printer_bed_header] ++ mergeBodyOrig order (outs.map bedPart) }
 
 /-- the two read-level files of `process_assigned_reads(sample, saves_file)` -/
 def processSavedP (E : Env) (cfg : Config) (X : PrintEnv) (names : List String) (files : Saved) : Option Printed :=
